@@ -98,7 +98,9 @@ def h15(b0: bool, b1: bool, b2: bool, b3: bool, b4: bool, b5: bool) -> bool:
         return fin(True, nontrivial=not feasible)
     # 2. accepted: the solution satisfies every bound
     feat_constr_upper_only = tvspec[0] == "constr" and not lows and bool(ups)
-    if excluded(feat_constr_upper_only=feat_constr_upper_only, accepted_infeasible=not feasible):
+    feat_constr_lower_and_upper = tvspec[0] == "constr" and bool(lows) and bool(ups)
+    if excluded(feat_constr_upper_only=feat_constr_upper_only, feat_constr_lower_and_upper=feat_constr_lower_and_upper,
+                accepted_infeasible=not feasible):
         return skip()
     if not feasible and (lows or tvspec[0] == "constr") and "any" not in args:
         return fin(False)  # accepted although no value satisfies the bounds
@@ -291,6 +293,10 @@ def cases(tier: str, seed: int) -> List[Case]:
                     params = [list(k) for k in kinds]
                     out.append(Case("h15", _lab(kinds, tv, args), {"params": params, "tv": list(tv), "args": list(args), "perms": "some" if quick else "all"},
                                     timeout=90 if quick else 300, twin=(idx % 4 == 0), vacuous_ok=True))
+    # pinned in every tier: the witness of known finding C15-K3 (all arguments of the atom below both constraints)
+    if not any(c.label == "T,cbT|constr:0:1|2,2" for c in out):
+        out.append(Case("h15", "T,cbT|constr:0:1|2,2", {"params": [["T"], ["cbT"]], "tv": ["constr", 0, 1], "args": [2, 2],
+                                                        "perms": "some" if quick else "all"}, timeout=90 if quick else 300, twin=True, vacuous_ok=True))
     # two type variables
     kinds2 = [("T",), ("U",), ("cbTU",), ("dictTU",)]
     for n in (1, 2, 3):
